@@ -1,6 +1,7 @@
 package main
 
 import (
+	"bytes"
 	"crypto"
 	"crypto/rand"
 	"crypto/rsa"
@@ -13,7 +14,6 @@ import (
 	"os/exec"
 	"path/filepath"
 	"sort"
-	"bytes"
 	"time"
 )
 
@@ -74,7 +74,7 @@ func cmsShapedSeeds(c *Ctx) []p7Seed {
 	k0, k1 := poolKey(c, 2048, 0), poolKey(c, 2048, 1)
 	var seeds []p7Seed
 	// a self-signed signer and one issued by a CA (issuer and subject differ)
-	for _, sh := range []certShape{certShapes(c)[2], certShapes(c)[9]} {
+	for _, sh := range []certShape{certShapes(c)[2], certShapes(c)[9], certShapes(c)[11], certShapes(c)[12], certShapes(c)[14]} {
 		right, twin, other := makeRSACert(k0, sh), makeRSACert(k1, sh), makeRSACert(k1, certShapes(c)[0])
 		for _, attached := range []bool{false, true} {
 			for _, smimecap := range []bool{false, true} {
@@ -142,7 +142,9 @@ func buildCMS(key *rsa.PrivateKey, cert *x509.Certificate, content []byte, attac
 		}
 		return append(append([]byte{0x30}, derLen(len(b))...), b...)
 	}
-	tagged := func(tag byte, inner []byte) []byte { return append(append([]byte{tag}, derLen(len(inner))...), inner...) }
+	tagged := func(tag byte, inner []byte) []byte {
+		return append(append([]byte{tag}, derLen(len(inner))...), inner...)
+	}
 	si := seq(mustMarshal(1, ""), seq(cert.RawIssuer, mustMarshal(cert.SerialNumber, "")), alg(oidSHA), tagged(0xa0, body), alg(oidRSA), mustMarshal(sig, ""))
 	eci := mustMarshal(oidData, "")
 	if attached {
@@ -221,7 +223,7 @@ func c16Gen(c *Ctx) {
 
 func init() {
 	register("C16", &PropDef{
-		Rule:   "OpenSSL smime/cms x {detached, -nodetach} x {-nosmimecap} x {-nocerts} x {-cades} produced at check time when the CLI exists; harness-built CMS SignedData in OpenSSL's shape (DER-sorted attribute SET, S/MIME capabilities on/off, attached/detached, certificates on/off, signer self-signed or issued by a CA); the sbsign / sbvarsign artefacts of the repository. Each is parsed and verified against the signer's certificate, a twin (same issuer+serial, other key) and an unrelated certificate, and its signed attributes are re-encoded and compared with the transmitted bytes. Every case is non-trivial; distinct = distinct (blob, certificate).",
+		Rule:   "OpenSSL smime/cms x {detached, -nodetach} x {-nosmimecap} x {-nocerts} x {-cades} produced at check time when the CLI exists; harness-built CMS SignedData in OpenSSL's shape (DER-sorted attribute SET, S/MIME capabilities on/off, attached/detached, certificates on/off, signer self-signed or issued by a CA, the signer's certificate itself signed with SHA-256, SHA-384 or SHA-512, a hand-encoded multi-valued-RDN name); the sbsign / sbvarsign artefacts of the repository. Each is parsed and verified against the signer's certificate, a twin (same issuer+serial, other key) and an unrelated certificate, and its signed attributes are re-encoded and compared with the transmitted bytes. Every case is non-trivial; distinct = distinct (blob, certificate).",
 		Assume: []string{"which OpenSSL configurations ran is recorded in notes.openssl; nothing depends on the CLI being present"},
 		Eval:   c16Eval, Gen: c16Gen,
 	})
